@@ -535,6 +535,27 @@ pub fn run_c18(tier: Tier) -> i32 {
         }
     }
     states += list_cases;
+    // (d') long accepted lists: the answer does not depend on how many names there are — one close
+    // name at the first / middle / last position of lists of 6 … 70 far names, several received lengths
+    {
+        let far: Vec<String> = (0..70).map(|i| format!("zq{i:02}wvx{}", "k".repeat(i % 5))).collect();
+        for (received, close) in [("sart", "sort"), ("lost", "last"), ("cropLenght", "cropLength"), ("attributesToRetreive", "attributesToRetrieve"), ("sort", "sort")] {
+            for n in [5usize, 6, 7, 8, 9, 10, 14, 15, 16, 20, 33, 64, 70] {
+                for pos in [0, n / 2, n - 1] {
+                    let mut list: Vec<&str> = far.iter().take(n - 1).map(|s| s.as_str()).collect();
+                    list.insert(pos.min(list.len()), close);
+                    let g = check(received, &list);
+                    outcomes.insert(hash64(&("long", g)));
+                    states += 1;
+                }
+                // and no close name at all
+                let list: Vec<&str> = far.iter().take(n).map(|s| s.as_str()).collect();
+                let g = check(received, &list);
+                outcomes.insert(hash64(&("long0", g)));
+                states += 1;
+            }
+        }
+    }
     // (e) call sequences: the suggestion is a function of (received, list) alone, whatever was asked
     // before on the same thread. Alphabet: 5 received strings × every ordering of every subset of
     // three names two of which tie; every ordered pair (thorough: triple) of calls, each sequence on
@@ -623,7 +644,7 @@ pub fn run_c18(tier: Tier) -> i32 {
     rec.set_extra("alphabet_pairs_length", json!(l1));
     rec.finish(
         "model_checking",
-        "complete enumeration of four finite spaces: (a) every (received, single candidate) pair over {a,b,c}^≤6 (quick) / ^≤8 (thorough); (a') every pair over {a,b,c}^≤4 behind a common prefix of 5 / 10 / 15 / 22 bytes, so that every distance 0..4 is met in every budget class 2..5 (transposition-with-insertion shapes distinguish true Damerau–Levenshtein from optimal string alignment only from budget 2 on); (b) every pair over {a,é}^≤7 (byte length ≠ char length, crossing the 3/4, 7/8 and 12/13 byte thresholds); (c) for byte lengths 3,4,7,8,12,13,17,18,24,25,30,40 (ascii and multi-byte bases) candidates at every distance 0..7 built by substitution / deletion / insertion / transposition, singly and in all ordered pairs; (b') every pair over {a, 日, 😀}^≤4 bare and behind 5 / 10 ASCII bytes; (c') received strings of 62…258 and 1000 bytes built from 2-, 3- and 4-byte characters behind 0–3 ASCII bytes, so that a character straddles every byte offset; (d) every candidate list of length 0..3 over a 12-string pool (ties, exact matches, empty string, duplicates) for 60 received strings; (e) call sequences: every ordered pair (thorough: triple) of calls over 5 received strings × all 16 orderings of the subsets of three names two of which tie, each sequence on a fresh thread (the answer does not depend on earlier calls). Oracle: independent unrestricted Damerau–Levenshtein over chars, budget by byte length, earliest minimal candidate; output empty or exactly `did you mean `X`? `.",
+        "complete enumeration of four finite spaces: (a) every (received, single candidate) pair over {a,b,c}^≤6 (quick) / ^≤8 (thorough); (a') every pair over {a,b,c}^≤4 behind a common prefix of 5 / 10 / 15 / 22 bytes, so that every distance 0..4 is met in every budget class 2..5 (transposition-with-insertion shapes distinguish true Damerau–Levenshtein from optimal string alignment only from budget 2 on); (b) every pair over {a,é}^≤7 (byte length ≠ char length, crossing the 3/4, 7/8 and 12/13 byte thresholds); (c) for byte lengths 3,4,7,8,12,13,17,18,24,25,30,40 (ascii and multi-byte bases) candidates at every distance 0..7 built by substitution / deletion / insertion / transposition, singly and in all ordered pairs; (b') every pair over {a, 日, 😀}^≤4 bare and behind 5 / 10 ASCII bytes; (c') received strings of 62…258 and 1000 bytes built from 2-, 3- and 4-byte characters behind 0–3 ASCII bytes, so that a character straddles every byte offset; (d) every candidate list of length 0..3 over a 12-string pool (ties, exact matches, empty string, duplicates) for 60 received strings; (d') one close name at the first / middle / last position of lists of 5 … 70 far names (and no close name); (e) call sequences: every ordered pair (thorough: triple) of calls over 5 received strings × all 16 orderings of the subsets of three names two of which tie, each sequence on a fresh thread (the answer does not depend on earlier calls). Oracle: independent unrestricted Damerau–Levenshtein over chars, budget by byte length, earliest minimal candidate; output empty or exactly `did you mean `X`? `.",
         &["the reference distance is the textbook unrestricted Damerau–Levenshtein (self-checked on known values at start-up)"],
     )
 }
@@ -1055,6 +1076,14 @@ pub fn run_c13(tier: Tier) -> i32 {
         extra.push(format!("{{\"n\":{a}}}"));
         let b = &nums[(i * 7 + 3) % n_nums];
         extra.push(format!("[{a},{b},{{\"m\":[{b},{a}]}}]"));
+    }
+    // objects that *look like* serde_json's private number token are ordinary objects
+    for k in ["$serde_json::private::Number", "$serde_json::private::RawValue", "$numberLong", "$date"] {
+        for v in ["\"42\"", "\"-7\"", "\"1.5\"", "\"1e3\"", "\"x\"", "42", "null"] {
+            extra.push(format!("{{\"{k}\":{v}}}"));
+            extra.push(format!("[{{\"{k}\":{v}}},{{\"a\":{{\"{k}\":{v}}}}}]"));
+            extra.push(format!("{{\"{k}\":{v},\"b\":1}}"));
+        }
     }
     rec.set_extra("number_spellings", json!(n_nums));
     rec.set_extra("documents_with_awkward_member_names", json!(extra.len()));
